@@ -69,7 +69,7 @@ def gen_text(rng: Any) -> dict:
 # stream B
 # --------------------------------------------------------------------------------------------
 
-LEAF_KINDS = (["pure"] * 6 + ["read"] * 2 + ["write"] * 2 + ["unknown"] * 2
+LEAF_KINDS = (["pure"] * 6 + ["read"] * 2 + ["write"] * 2 + ["unknown"] * 2 + ["unreg"]
               + ["free", "alloc", "alloc_res", "alloc_res", "alloc_opnd", "alloc_opnd", "rw", "sym", "sympure"])
 NEST_KINDS = ["rec"] * 5 + ["rec_read", "pure_region", "sym_region", "unknown_region"]
 
@@ -97,7 +97,7 @@ def gen_spec(rng: Any, max_depth: int = 2) -> list[dict]:
         for _b in range(nb):
             ops = gen_ops(depth, rng.choice([0, 1, 2, 2, 3, 4]), False)
             deg = rng.choice([0, 1, 1, 2]) if nb > 1 else rng.choice([0, 0, 0, 1])
-            term = {"k": rng.choice(["term", "term", "termpure"]), "n": 0, "u": [],
+            term = {"k": rng.choice(["term", "term", "termpure", "unregterm", "unregterm"]), "n": 0, "u": [],
                     "s": [rng.randrange(nb) for _ in range(deg)], "r": []}
             blocks.append(ops + [term])
         return blocks
@@ -209,3 +209,40 @@ def enum_small(n: int) -> Iterator[tuple[tuple[str, ...], tuple[int | None, ...]
     for kinds in itertools.product(SMALL_KINDS if n <= 2 else SMALL_KINDS_3, repeat=n):
         for uses in itertools.product([None, *range(n)], repeat=n):
             yield kinds, uses
+
+
+# --------------------------------------------------------------------------------------------
+# fixed shapes: blocks that are only reachable through an unregistered branch-like operation
+# --------------------------------------------------------------------------------------------
+
+def _op(k: str, n: int = 0, u: list | None = None, s: list | None = None, r: list | None = None) -> dict:
+    return {"k": k, "n": n, "u": u or [], "s": s or [], "r": r or []}
+
+
+def unregistered_branch_specs() -> list[list[dict]]:
+    """regions of a `test.op` whose control flow passes through `"unknown.br"()[^bb…]`"""
+    out = []
+    for eff in ("write", "unknown", "free", "rw", "pure", "read"):
+        # ^0: unknown.br[^1]   ^1: <eff>; test.termop
+        out.append([_op("unknown_region", r=[[[_op("unregterm", s=[1])],
+                                              [_op(eff, n=1), _op("term")]]])])
+        # the same below an operation with recursive effects whose result is used
+        out.append([_op("unknown_region", r=[[[
+            _op("rec", n=1, r=[[[_op("unregterm", s=[1])], [_op(eff, n=1), _op("termpure")]]]),
+            _op("term", u=[[1, 0]])]]])])
+    # the demo: ^0 -> ^2 -> ^3 through unregistered branches, ^1 really unreachable
+    out.append([_op("unknown_region", r=[[
+        [_op("unknown", n=1), _op("unregterm", u=[[1, 0]], s=[2])],
+        [_op("unknown"), _op("term", s=[2])],
+        [_op("pure", n=1), _op("unknown", u=[[5, 0]]), _op("unregterm", s=[3, 3])],
+        [_op("unknown"), _op("term")]]])])
+    # a chain and a loop of unregistered branches with a write at the end / in the loop
+    out.append([_op("unknown_region", r=[[[_op("unregterm", s=[1])], [_op("unregterm", s=[2])],
+                                          [_op("write"), _op("term")]]])])
+    out.append([_op("unknown_region", r=[[[_op("unregterm", s=[1])],
+                                          [_op("write"), _op("unregterm", s=[1, 2])],
+                                          [_op("term")]]])])
+    # mixed: a known terminator leads to a block that ends in an unregistered branch
+    out.append([_op("unknown_region", r=[[[_op("term", s=[2])], [_op("write"), _op("term")],
+                                          [_op("unregterm", s=[3])], [_op("free"), _op("termpure")]]])])
+    return out
